@@ -188,7 +188,8 @@ Hss == Certs \cup {"stall", "close", "garbage"}
 
 (* result codes of a refusal: any non-zero code, including the "non-error"   *)
 (* ones (referral 10, saslBindInProgress 14) - only success (0) starts TLS   *)
-RefuseCodes == {1, 2, 10, 14, 52, 53}
+(* 1000000 stands for 2^32 (TLC's integers are 32 bit): a non-zero code whose low 32 bits are all zero *)
+RefuseCodes == {1, 2, 10, 14, 52, 53, 1000000}
 Scripts == [resp : Resps \cup {"na"}, rc : {0} \cup RefuseCodes, inj : Injs, hs : Hss]
 ScriptFor(cfg, sc) ==
   /\ (sc.resp = "refuse") <=> (sc.rc # 0)
